@@ -35,3 +35,15 @@ void *st_os_ret_l(void *os, uint64_t x) { return os; }
 int n_timer_sched, n_timer_clear; uint32_t timer_sched_ms;
 uint8_t st_timer_schedule(void *timer, void *ev, uint32_t ms) { n_timer_sched++; timer_sched_ms = ms; return 1; }
 uint64_t st_timer_clear(void *timer) { n_timer_clear++; return 0; }
+/* exception store: all fix8 exception classes are single-inheritance extensions of f8Exception by at most 16 bytes */
+static struct { struct S_class_2eFIX8_3a_3af8Exception base; uint64_t tail[4]; } vf_exc_store;
+void *st_exc_alloc(uint64_t n) { __CPROVER_assert(n <= sizeof vf_exc_store, "exception store large enough"); return &vf_exc_store; }
+void st_exc_throw(void *obj, void *tinfo, void *dtor)
+{
+  if (vf_ti_match(tinfo, &g__ZTIN4FIX811f8ExceptionE))
+    ((struct S_class_2eFIX8_3a_3af8Exception*)obj)->f0.f0 = (FP0*)((uint8_t**)&g__ZTVN4FIX811f8ExceptionE.f0.a[2]);
+  x___cxa_throw((uint8_t*)obj, (uint8_t*)tinfo, (uint8_t*)dtor);
+}
+uint8_t st_false_pu(void *s, uint32_t l) { return 0; }
+uint8_t st_false_ppupu(void *s, void *w, uint32_t l, void *f, uint32_t v) { return 0; }
+uint8_t st_false_ppuu(void *s, void *w, uint32_t l, uint32_t d) { return 0; }
